@@ -93,7 +93,7 @@ func (h *c19) bind(payload []byte, claims IClaims, key int) {
 // script: tell the decoder stub which claims-set a payload decodes to (symbolic mode)
 func (h *c19) script(payload []byte, c IClaims) {
 	if ndSymbolic() {
-		verifStub.byBuf = append(verifStub.byBuf, verifBufClaims{buf: payload, g1: h.gen(c)})
+		verifScript(payload, h.gen(c))
 	}
 }
 
@@ -231,7 +231,7 @@ func (h *c19) decode(t int) {
 		p := h.payloadOfInvalid()
 		h.bind(p, h.gz.c, 0)
 		if ndSymbolic() {
-			verifStub.byBuf = append(verifStub.byBuf, verifBufClaims{buf: p, g1: h.gz})
+			verifScript(p, h.gz)
 		}
 		buf = h.craft(p, 0)
 	case 5: // honestly signed envelope whose payload is not a claims map
@@ -239,7 +239,7 @@ func (h *c19) decode(t int) {
 		if ndSymbolic() {
 			p = ndBytes("payload.undecodable")
 			ndAssume(len(p) > 0)
-			verifStub.byBuf = append(verifStub.byBuf, verifBufClaims{buf: p, g1: nil})
+			verifScript(p, nil)
 		} else {
 			p = []byte{0x01}
 		}
